@@ -324,7 +324,48 @@ def r18i(ctx):
               key_detail="angle conversion guard", loc=ctx.loc(repo.cls(LT).module, rd))
 
 
+def r18j(ctx):
+    """`unit transmission when a medium is split`: at an internal boundary the Fresnel factors are built from the refractive index *at the
+    boundary depth* on either side.  In LayeredRayTracePath.fresnel the incoming side is the END of the first path (index of its ice at
+    to_point), the outgoing side the START of the second (index at from_point, which is also that path's n0) or the stack's outer index.
+    For a split exponential ice the index at the other end of the layer differs, and the factor is no longer 1."""
+    repo = ctx.repo
+    ctx.rule("R18j", "LayeredRayTracePath.fresnel: Snell's ratio at a boundary uses the index at the end of the incoming path and at the start of the outgoing path "
+             "(or the stack's outer index), never an index from the far end of a layer", expected=2, kind="N")
+    fn = repo.member(LP, "fresnel")
+    loop = next((n for n in ast.walk(fn) if isinstance(n, ast.For) and isinstance(n.target, ast.Tuple) and len(n.target.elts) == 2
+                 and is_call(n.iter, func="zip") and len(n.iter.args) == 2 and u(n.iter.args[0]) == "self.paths[:-1]" and u(n.iter.args[1]) == "self.paths[1:]"), None)
+    if loop is None:
+        ctx.unknown("R18j", f"{LP}.fresnel", "the loop over consecutive sub-paths is found", "no `for a, b in zip(self.paths[:-1], self.paths[1:])`")
+        return
+    a, b = (e.id for e in loop.target.elts)
+    defs = {}
+    for n in ast.walk(loop):
+        if isinstance(n, ast.Assign) and len(n.targets) == 1 and isinstance(n.targets[0], ast.Name):
+            defs.setdefault(n.targets[0].id, []).append(n.value)
+    incoming_ok = {f"{a}.ice.index({a}.to_point[2])"}
+
+    def outgoing_ok(txt):
+        import re
+        return txt in (f"{b}.ice.index({b}.from_point[2])", f"{b}.n0", "self.ice.index_above", "self.ice.index_below") \
+            or re.fullmatch(r"self\.ice\.layers\[[^\]]+\]\.index\(" + re.escape(b) + r"\.from_point\[2\]\)", txt) is not None
+    ratios = [n for n in ast.walk(loop) if isinstance(n, ast.BinOp) and isinstance(n.op, ast.Div) and isinstance(n.left, ast.Name) and isinstance(n.right, ast.Name)
+              and isinstance(parent(n), ast.BinOp) and isinstance(parent(n).op, ast.Mult) and is_call(parent(n).right, func="np.sin")]
+    if not ratios:
+        ctx.unknown("R18j", f"{LP}.fresnel", "Snell's ratio n_in / n_out * sin(theta) is found", "no such expression in the loop")
+        return
+    for r in ratios:
+        n_in, n_out = r.left.id, r.right.id
+        d_in = [u(v) for v in defs.get(n_in, [])]
+        d_out = [u(v) for v in defs.get(n_out, [])]
+        ok = bool(d_in) and all(t in incoming_ok for t in d_in) and bool(d_out) and all(outgoing_ok(t) for t in d_out)
+        wrong = [t for t in d_in if t not in incoming_ok] + [t for t in d_out if not outgoing_ok(t)]
+        ctx.check(ok, "R18j", f"{LP}.fresnel", f"`{u(r)}`: incoming index at the end of `{a}`, outgoing index at the start of `{b}` or an outer index",
+                  "; ".join(wrong) if wrong else "index not bound in the loop", key_detail=f"boundary index line {ratios.index(r)}", loc=ctx.loc(LP.rsplit(".", 1)[0], r))
+
+
 def run(ctx):
+    ctx.guard(r18j)
     ctx.guard(r18i)
     ctx.guard(r18h)
     ctx.guard(r18g)
@@ -338,6 +379,8 @@ def run(ctx):
 
 SELFTEST = {
     "faults": [
+        {"name": "incoming index taken at the start of the layer (n0) in LayeredRayTracePath.fresnel", "file": "pyrex/custom/layered_ice/ray_tracing.py",
+         "old": "            n_1 = path_1.ice.index(path_1.to_point[2])", "new": "            n_1 = path_1.n0", "rule": "R18j"},
         {"name": "directions trimmed at the wrong end", "file": "pyrex/custom/layered_ice/ray_tracing.py", "old": "                    directions = directions[:-1]", "new": "                    directions = directions[1:]",
          "rule": "R18i"},
         {"name": "angle conversion only for direct paths", "file": "pyrex/custom/layered_ice/ray_tracing.py", "old": "            if zs[0]>zs[-1]:\n                if len(zs)==2 and angle<np.pi/2:",
